@@ -80,7 +80,8 @@ Parse(s) == LET hits == { n \in Nets : ParseWith(s, n).ok } IN
 ---------------------------------------------------------------------------
 (* strings near valid ones *)
 \* human-readable parts that extend or truncate a built-in one: a checksum computed over them is valid, the network still is not named
-NearHrps == {"exx", "e", "ertq", "er", "texx", "te", "lqq", "l", "elq", "tlqq", "tl", "exq", "lqel"}
+NearHrps == {"exx", "e", "ertq", "er", "texx", "te", "lqq", "l", "elq", "tlqq", "tl", "exq", "lqel",
+             "ex1", "lq1", "ert1", "el1x", "1ex"}     \* the separator is the LAST '1' of a string: these contain one themselves
 SegStrings ==
   [kind : {"seg"}, hrp : AllHrps \cup {"bc", "xx"} \cup NearHrps, case : {"lower", "upper", "mixed"}, ver : {0, 1, 2, 16, 17},
    keylen : {0, 33}, plen : {0, 1, 2, 19, 20, 21, 31, 32, 33, 40, 41}, code : {"bech", "blech"}, variant : {"plain", "m", "bad"}, pad : {0}]
